@@ -21,7 +21,7 @@ func NewTargetFromValue(value string) (*Target, error) {
 	if err != nil {
 		return nil, fmt.Errorf("target format is invalid: %w", err)
 	}
-	return &Target{ip, port, value}, nil
+	return NewTarget(ip, port), nil
 }
 
 func (target *Target) IsSameNetworkId(other *Target) bool {
